@@ -153,6 +153,29 @@ def _check_recovered(st, where, case, root, node, rows):
       st.violation(f'C09:{where}.{name}:recovered-shard-differs',
                    {'case': case, 'state': repr(state), 'got': got,
                     'expected': rows}, replay={'case': case})
+  # second generation: the state recorded by a *rebuilt* shard / a restored
+  # iterator (before and after one step) must again rebuild the same elements
+  def regen_source():
+    rebuilt = root.from_state(state)
+    return list(root.from_state(rebuilt.state))
+
+  def regen_iterator(advance):
+    it = root.iterate().from_state(state)
+    head = [next(it) for _ in range(advance)]
+    return head + list(root.iterate().from_state(it.state))
+
+  checks = [('from_state(from_state().state)', regen_source),
+            ('iterate().from_state(restored-iterator.state)',
+             lambda: regen_iterator(0))]
+  if rows:
+    checks.append(('iterate().from_state(restored-iterator.state after next)',
+                   lambda: regen_iterator(1)))
+  for name, fn in checks:
+    got = _try(fn)
+    if got != ('ok', rows):
+      st.violation(f'C09:{where}.{name}:recovered-shard-differs',
+                   {'case': case, 'state': repr(state), 'got': got,
+                    'expected': rows}, replay={'case': case})
   got = _try(lambda: len(root.from_state(state)))
   if got != ('ok', len(rows)):
     st.violation(f'C09:{where}.from_state:recovered-len-differs',
